@@ -66,6 +66,9 @@ def run(rep: Report, tier: str) -> None:
 				for b, v, n in assigns:
 					fresh = is_fresh(v)
 					ra.check(fresh, key, (DI_PY, n.lineno), f'{cls.name}.{mname} assigns {store} from `{unparse(v)}`, which aliases existing storage: a later bind/unbind on one container changes the other', unparse(n))
+					if mname == 'combine' and isinstance(v, ast.BinOp) and isinstance(v.op, ast.BitOr):
+						src = attr_of(v.right, cls, ('other',))
+						ra.check(src is not None and src[1] == store, key + ':right-wins', (DI_PY, n.lineno), f'combine must put the right operand on the right of the dict union so its bindings win: `{unparse(v)}`', unparse(n))
 					if mname == 'combine' and isinstance(v, ast.Dict):
 						spreads = [unparse(x) for k, x in zip(v.keys, v.values) if k is None]
 						ra.check(len(spreads) == 2 and spreads[1].startswith('other.'), key + ':right-wins', (DI_PY, n.lineno), f'combine must spread the right operand last so its bindings win; spreads are {spreads}', unparse(n))
